@@ -64,6 +64,10 @@ pub fn new_leaf(xot: &mut Xot, a: &ANode) -> Node {
                 let n = xot.new_text("zz-draft");
                 if key % 8 == 1 {
                     xot.text_mut(n).unwrap().set(a.text.clone());
+                } else if key % 16 == 5 {
+                    if let xot::Value::Text(t) = xot.value_mut(n) {
+                        t.set(a.text.clone());
+                    }
                 } else {
                     let s = xot.text_mut(n).unwrap().get_mut();
                     s.clear();
